@@ -140,6 +140,32 @@ impl GuestX for MyX {
         a
     }
 }
+// borrow<x> reached through one / two alias hops.  The parameter type is whatever the generator printed for it (taken from
+// the generated trait by lib/genrun_c07.py): `XBorrow<'_>` for an exported resource; should the generator ever treat the
+// aliased resource as an imported one (`&X`), the code still compiles and the host sees the stray resource.rep/drop calls.
+trait Peek {
+    fn peek_v(&self) -> u32;
+}
+impl Peek for XBorrow<'_> {
+    fn peek_v(&self) -> u32 {
+        self.get::<MyX>().v
+    }
+}
+impl Peek for &X {
+    fn peek_v(&self) -> u32 {
+        self.handle() // no dereference: what matters is the resource.drop the glue issues on this lent "handle" afterwards
+    }
+}
+impl bindings::exports::c7::p::view::Guest for G {
+    fn peek_x(a: @VIEW_PARAM@) -> u32 {
+        a.peek_v()
+    }
+}
+impl bindings::exports::c7::p::audit::Guest for G {
+    fn inspect_x(a: @AUDIT_PARAM@) -> u32 {
+        a.peek_v()
+    }
+}
 bindings::export!(G with_types_in bindings);
 
 // ---- the host side of the imported interface (mock; CM lift/lower on the handle table of rt.rs) -----------------------
@@ -205,6 +231,10 @@ extern "C" {
     fn e_method_get(rep: u32) -> u32;
     #[link_name = "@PREFIX@c7:p/exp#[static]x.merge"]
     fn e_merge(a: u32, b_rep: u32) -> u32;
+    #[link_name = "@PREFIX@c7:p/view#peek-x"]
+    fn e_peek_x(rep: u32) -> u32;
+    #[link_name = "@PREFIX@c7:p/audit#inspect-x"]
+    fn e_inspect_x(rep: u32) -> u32;
 }
 pub fn init() {
     unsafe {
@@ -242,6 +272,8 @@ pub fn export(k: usize, a: &[u64]) -> u64 {
             9 => e_ctor_x(a[0] as u32) as u64,
             10 => e_method_get(a[0] as u32) as u64,
             11 => e_merge(a[0] as u32, a[1] as u32) as u64,
+            12 => e_peek_x(a[0] as u32) as u64,
+            13 => e_inspect_x(a[0] as u32) as u64,
             _ => {
                 rt::note("no-such-export");
                 0
